@@ -176,6 +176,9 @@ const TAGS: &[&str] = &[
     "<wxs module=\"w\">exports.f = function(x){ return x < 1 ? '<a' : '{{' + x }</wxs><text>{{ w.f(a) }}</text>",
     "<view wx:for=\"{{ list }}\" wx:key=\"k\" bind:tap=\"h1\" data-i=\"{{ index }}\" mark:k=\"{{ item.k }}\" class=\"c{{ index }}\">{{ item.v }}</view>",
     "<block wx:for=\"{{ list }}\"><block wx:if=\"{{ item.v }}\"><text>{{ item.v }}</text></block><block wx:else><text>none{{ index }}</text></block></block>",
+    // slot elements: name, values, common attributes, and look-alikes with a trailing dash
+    "<slot name=\"{{ a }}\" my-value=\"{{ b }}\" v2=\"x\" id=\"{{ c }}\"/><slot/>",
+    "<slot name-=\"x\" sv=\"{{ a }}\"/><slot id-=\"{{ b }}\" slot-=\"y\"/><view><slot name-></view>",
     // a data field that is called like a mangled name, next to a declared scope name
     "<view slot:x>{{ _$0 }}-{{ x }}</view><text>{{ _$0 }}</text>",
     // text runs separated only by a node that is hoisted out of the content tree or dropped by
